@@ -9,6 +9,7 @@ import (
 	"errors"
 	"fmt"
 	"log/slog"
+	"os"
 	"reflect"
 	"strings"
 	"testing"
@@ -87,7 +88,7 @@ func c14TDs() []c14TD {
 // the two secret environments: differ in the first byte (so any precision ≥ 1 shows a difference),
 // contain format directives, the marker and non-ASCII text
 var (
-	c14SecA = []string{"Qs3cr3t-%d-%s-[REDACTED]-ключ-0", "Qpw%v\"'\\-1", "Q2"}
+	c14SecA = []string{"Qs3cr3t-%d-%s-[REDACTED]-ключ-0", "Qpw%v\"'\\-1", ""} // the third secret is empty in environment A
 	c14SecB = []string{"W0ther-%d-%s-[REDACTED]-鍵-0-longer", "Wzz%v\"'\\-1", "W2"}
 )
 
@@ -228,6 +229,9 @@ func TestVerifC14Fmt(t *testing.T) {
 	out := vOpen(t)
 	defer out.Close()
 	out.Linef("model c14-fmt 1")
+	if os.Getenv("VERIF_C14_THOROUGH_ONLY") != "" && !vThorough() {
+		return // the second-toolchain run is part of the thorough tier only
+	}
 	verbs := c14Verbs()
 	tds := c14TDs()
 	fixed := c14FixedShapes()
@@ -374,12 +378,15 @@ func c14Wrappers(out *vOut, c int) {
 		{"errors_new", func(s configopaque.String) string { return errors.New(s.String()).Error() }},
 		{"time_unrelated", func(s configopaque.String) string { return fmt.Sprint(time.Duration(0), s) }},
 	}
-	for _, x := range ws {
-		r1, r2 := x.f(a), x.f(b)
-		out.Linef("op misc kind=%s", x.name)
-		out.Linef("obs dep=%d", vB(r1 != r2))
-		if r1 != r2 || strings.Contains(r1, c14SecA[0]) {
-			out.Linef("viol sig=C14/fmt/wrapper-raw kind=%s out=%s", x.name, vHex(r1))
+	for _, pr := range c14SecretPairs(c) {
+		a, b = configopaque.String(pr[0]), configopaque.String(pr[1])
+		for _, x := range ws {
+			r1, r2 := x.f(a), x.f(b)
+			out.Linef("op misc kind=%s", x.name)
+			out.Linef("obs dep=%d", vB(r1 != r2))
+			if r1 != r2 || (len(pr[0]) >= 8 && pr[0] != "[REDACTED]" && strings.Contains(r1, pr[0])) {
+				out.Linef("viol sig=C14/fmt/wrapper-raw kind=%s out=%s", x.name, vHex(r1))
+			}
 		}
 	}
 	out.Linef("nt")
@@ -461,6 +468,14 @@ func c14Paths(out *vOut, c int) {
 				E any               `json:"e"`
 			}{m, []string{m}, map[string]string{"k": m}, &ms, m})
 		}},
+		{"json", "value", func(s configopaque.String) (string, error) { return js(c14MkShape2(s)) }, nil},
+		{"json", "value", func(s configopaque.String) (string, error) {
+			return js([]any{s, &s, map[string]any{"k": s, "l": []any{s}}})
+		}, nil},
+		{"yaml", "value", func(s configopaque.String) (string, error) { return ym(c14MkShape2(s)) }, nil},
+		{"yaml", "value", func(s configopaque.String) (string, error) {
+			return ym([]any{s, &s, map[string]any{"k": s, "l": []any{s}}})
+		}, nil},
 		{"json", "mapKey", func(s configopaque.String) (string, error) { return js(map[configopaque.String]int{s: 1}) }, func() (string, error) { return js(map[string]int{m: 1}) }},
 		{"yaml", "value", func(s configopaque.String) (string, error) { return ym(mk(s)) }, func() (string, error) {
 			ms := m
@@ -479,6 +494,7 @@ func c14Paths(out *vOut, c int) {
 				B []configopaque.String
 			}{s, []configopaque.String{s}})
 		}, nil},
+		{"gob", "value", func(s configopaque.String) (string, error) { return gb([]configopaque.String{s, s}) }, nil},
 		{"gob", "mapKey", func(s configopaque.String) (string, error) { return gb(map[configopaque.String]int{s: 1}) }, nil},
 		{"text", "value", func(s configopaque.String) (string, error) { b, err := s.MarshalText(); return string(b), err }, func() (string, error) { return m, nil }},
 		{"binary", "value", func(s configopaque.String) (string, error) { b, err := s.MarshalBinary(); return string(b), err }, func() (string, error) { return m, nil }},
@@ -504,33 +520,94 @@ func c14Paths(out *vOut, c int) {
 		}), nil},
 		{"conv", "value", func(s configopaque.String) (string, error) { return string(s), nil }, nil},
 	}
-	a, b := configopaque.String(c14SecA[0]), configopaque.String(c14SecB[0])
-	for _, x := range ps {
-		r1, e1 := x.f(a)
-		r2, e2 := x.f(b)
-		dep := r1 != r2
-		marker := !dep && strings.Contains(r1, m) && !strings.Contains(r1, c14SecA[0])
-		if x.ref != nil {
-			ref, _ := x.ref()
-			marker = r1 == ref
+	gobStructIdx := -1
+	for i, x := range ps {
+		if x.name == "gob" && x.pos == "value" && gobStructIdx < 0 {
+			gobStructIdx = i
 		}
-		out.Linef("op path name=%s pos=%s", x.name, x.pos)
-		if e1 != nil || e2 != nil {
-			out.Linef("obs error")
-			continue
-		}
-		out.Linef("obs dep=%d marker=%d", vB(dep), vB(marker))
-		if x.name == "conv" {
-			if r1 != c14SecA[0] {
-				out.Linef("viol sig=C14/conv/explicit-conversion-lost-the-secret")
+	}
+	for _, pr := range c14SecretPairs(c) {
+		a, b := configopaque.String(pr[0]), configopaque.String(pr[1])
+		for xi, x := range ps {
+			r1, e1 := x.f(a)
+			r2, e2 := x.f(b)
+			dep := r1 != r2
+			if pr[0] == "" && xi == gobStructIdx {
+				// gob omits a struct field holding the zero value before it looks at the type's marshalers: an EMPTY opaque
+				// field is left out (reveals emptiness only, like `omitempty`); the empty pair uses the slice shape below
+				out.Linef("stat gob_struct_field_skipped_for_empty_secret 1")
+				continue
 			}
-			continue
-		}
-		if dep {
-			out.Linef("viol sig=C14/%s/%s-raw out=%s", x.name, x.pos, vHex(r1))
+			marker := !dep && strings.Contains(r1, m) && (len(pr[0]) < 8 || pr[0] == m || !strings.Contains(r1, pr[0]))
+			if x.ref != nil {
+				ref, _ := x.ref()
+				marker = r1 == ref && r2 == ref // both environments (one of the secrets may BE the marker)
+			}
+			out.Linef("op path name=%s pos=%s", x.name, x.pos)
+			if e1 != nil || e2 != nil {
+				out.Linef("obs error")
+				continue
+			}
+			out.Linef("obs dep=%d marker=%d", vB(dep), vB(marker))
+			if x.name == "conv" {
+				if r1 != pr[0] {
+					out.Linef("viol sig=C14/conv/explicit-conversion-lost-the-secret")
+				}
+				continue
+			}
+			if dep {
+				out.Linef("viol sig=C14/%s/%s-raw out=%s", x.name, x.pos, vHex(r1))
+			}
 		}
 	}
 	out.Linef("nt")
 	out.Linef("end")
 	out.Flush()
+}
+
+// c14SecretPairs: the secret environments of the wrapper / path cases — fixed classes (format directives and
+// non-ASCII, the EMPTY secret, the marker itself, a very long one, single characters) plus pairs drawn per run.
+func c14SecretPairs(c int) [][2]string {
+	long := strings.Repeat("Zl0ng-", 200)
+	ps := [][2]string{{c14SecA[0], c14SecB[0]}, {"", "Wb-nonempty"}, {"[REDACTED]", long}, {"a", "b"}, {"Q \n\t\"q\"", "{json:[1]}"}}
+	rnd := vRand(c)
+	alphabet := []rune("abcXYZ019 -_%:{}[]\"'\\éß世🔑")
+	for i := 0; i < 3; i++ {
+		mk := func() string {
+			n := 1 + rnd.IntN(24)
+			r := make([]rune, n)
+			for j := range r {
+				r[j] = alphabet[rnd.IntN(len(alphabet))]
+			}
+			return string(r)
+		}
+		x, y := mk(), mk()
+		if x == y {
+			y += "~"
+		}
+		ps = append(ps, [2]string{x, y})
+	}
+	return ps
+}
+
+type C14Emb struct {
+	In configopaque.String `json:"in" yaml:"in"`
+}
+
+type c14Shape2 struct {
+	C14Emb `yaml:",inline"`
+	E      any                     `json:"e" yaml:"e"`
+	M      map[string]any          `json:"m" yaml:"m"`
+	P      **configopaque.String   `json:"p" yaml:"p"`
+	L      [][]configopaque.String `json:"l" yaml:"l"`
+	S      struct {
+		X configopaque.String `json:"x" yaml:"x"`
+	} `json:"s" yaml:"s"`
+}
+
+func c14MkShape2(s configopaque.String) c14Shape2 {
+	ps := &s
+	v := c14Shape2{C14Emb: C14Emb{In: s}, E: []any{s}, M: map[string]any{"a": s, "b": map[string]configopaque.String{"c": s}}, P: &ps, L: [][]configopaque.String{{s}}}
+	v.S.X = s
+	return v
 }
